@@ -569,6 +569,13 @@ def null_checked(ctx, res):
                             del pending[t]
                     continue
                 if it[0] == "store":
+                    # a possibly-NULL result parked in a struct field: the
+                    # failure is neither reported nor undone, and the field
+                    # is later used as if it were set
+                    _, lhs, rhs, sline = it
+                    if rhs in pending and is_field_text(lhs):
+                        k = ("store", pending[rhs][0])
+                        found.setdefault(k, (rhs, pending[rhs][1], sline, p))
                     continue
                 _, c, args, full, line, stmt = it
                 # uses
@@ -599,6 +606,18 @@ def null_checked(ctx, res):
         if not found:
             res.oblige(True, f, "", "")
         for (user, prod), (a, l1, l2, p) in sorted(found.items()):
+            if user == "store":
+                res.violation(f"{f}:unchecked:{prod}:store"[:120],
+                              f"{CREL}:{l2}",
+                              f"{f}: the result of `{prod}` (line {l1}) can "
+                              f"be NULL with an exception set, and is stored "
+                              f"into a struct field (line {l2}) without "
+                              f"having been compared with NULL on this path: "
+                              f"the function goes on (and may report "
+                              f"success) with the exception pending and the "
+                              f"field NULL",
+                              [f"{CREL}:{l}" for l in dict.fromkeys(p.lines) if l])
+                continue
             res.violation(f"{f}:unchecked:{prod}:{user}"[:120], f"{CREL}:{l2}",
                           f"{f}: the result of `{prod}` (line {l1}) can be "
                           f"NULL with an exception set, and is passed to "
